@@ -7,6 +7,7 @@ mod m_cchan;
 mod m_cexec;
 mod m_cping;
 mod m_crun;
+mod m_genlife;
 mod m_seq;
 mod m_signals;
 mod m_timing;
@@ -26,6 +27,7 @@ fn main() {
         Some("cping") => m_cping::run(),
         Some("async") => m_async::run(),
         Some("asyncw") => m_asyncw::run(),
+        Some("genlife") => m_genlife::run(),
         Some("cexec") => m_cexec::run(),
         Some("cexec13") => m_cexec::run13(),
         Some("cexecdrop") => m_cexec::run_drop(),
